@@ -55,6 +55,37 @@ FOR_KINDS(X)
 VF_HARNESS(array_roundtrip_empty_k1) { t_array_roundtrip<5, 1>(); vf_reach("array_roundtrip_empty_k1"); }
 VF_HARNESS(array_roundtrip_empty_k0) { t_array_roundtrip<5, 0>(); vf_reach("array_roundtrip_empty_k0"); }
 
+// ---- arrays over explicit index extensions [b_k, b_k + n_k): the extensions (bases included) are part of the value that round-trips
+template<std::size_t... I> static multi::extensions_t<D> bexts_(L const* b, L const* n, std::index_sequence<I...>) { return multi::extensions_t<D>{multi::index_extension(b[I], b[I] + n[I])...}; }
+template<std::size_t... I> static bool has_based_extents_(Arr const& a, L const* b, L const* n, std::index_sequence<I...>) {
+  auto x = a.extensions(); using std::get; bool ok = true;
+  ((ok = ok && get<I>(x).first() == b[I] && get<I>(x).size() == n[I]), ...);
+  return ok;
+}
+template<std::size_t... I> static auto& at_based_(Arr& a, L const* b, L const* i, std::index_sequence<I...>) { return a(b[I] + i[I]...); }
+template<int KB> static void t_based_roundtrip() {
+  L b[D]; L n[D]; draw_extents<D>(n, 1, NB);
+#pragma unroll
+  for(int k = 0; k < D; ++k) b[k] = vf_range(-2, 2);
+  { SLOT(0); Arr a(bexts_(b, n, std::make_index_sequence<D>{}), T(5));
+    { L ne = prod<D>(n); auto e = a.elements();
+#pragma unroll
+      for(int k = 0; k < NE; ++k) if(k < ne) e[k] = T(10 + k); }
+    Slot p; make_state<KB>(p, 40, 2); SLOT(4);
+    g_tpos = 0; SymAr<true> out; out & a;
+    L const written = g_tpos;
+    g_tpos = 0; SymAr<false> in; in & *p;
+    vf_assert(g_tpos == written && g_tbad == 0, "load consumes exactly what save produced");
+    vf_assert(has_based_extents_(*p, b, n, std::make_index_sequence<D>{}), "the loaded array has the saved extensions, index bases included");
+    L i[D]; draw_tuple<D>(n, i);
+    vf_assert(val(at_based_(*p, b, i, std::make_index_sequence<D>{})) == 10 + flat<D>(n, i), "the loaded element at index tuple b + i is the saved one");
+    vf_assert(*p == a, "the loaded array equals the saved one");
+    p.destroy(); }
+  check_all_released();
+}
+VF_HARNESS(based_roundtrip_k0) { t_based_roundtrip<0>(); vf_reach("based_roundtrip_k0"); }
+VF_HARNESS(based_roundtrip_k1) { t_based_roundtrip<1>(); vf_reach("based_roundtrip_k1"); }
+
 // ---- views: exactly their own elements, canonical order, nothing else touched
 template<class TT, int N, int Base> struct Coded { TT a[N]; constexpr Coded() : a{} { for(int i = 0; i < N; ++i) a[i] = static_cast<TT>(Base + i); } };
 extern "C" { Coded<int, 32, 500> g_srcS = Coded<int, 32, 500>(); Coded<int, 32, 700> g_dstS = Coded<int, 32, 700>(); }
